@@ -1,6 +1,7 @@
 /- Driver ops for C03: TMLE targeting step (`TMLE.fit`, cross-fit `targeting_step`), unit-interval maps. -/
 import Driver.Common
 import ZepidVerif.Model.Tmle
+import ZepidVerif.Model.TmleInit
 import ZepidVerif.Gen.TmleFit
 import ZepidVerif.Gen.Weights
 namespace ZVD
@@ -120,6 +121,24 @@ def opUnitQ (a : Args) : Except String String := do
   let u := b.map fun v => Gen.tmle_unit_unbound v mini maxi
   pure s!"ok bounded={showList showRat b} back={showList showRat u}"
 
-def opsC03 : OpTable := [("tmle", opTmle), ("tmlecf", opTmleCf), ("unit", opUnit), ("unitq", opUnitQ)]
+/-- `qinit spec=sym b= | spec=coll items=  a= q1= q0=`: `outcome_model`'s truncation of the initial predictions (the
+    interval is entries 0 and 1 of a collection, [b, 1-b] for a float) and the offset `QAW` formed from the result -/
+def opQInit (a : Args) : Except String String := do
+  let spec ← need a "spec" some
+  let b : QBound Float ← match spec with
+    | "sym" => do pure (QBound.sym (← fl a "b"))
+    | "coll" => do pure (QBound.coll (← fls a "items"))
+    | _ => throw ("unknown-spec:" ++ spec)
+  let av ← bools a "a"; let q1 ← fls a "q1"; let q0 ← fls a "q0"
+  let ones := q1.map fun _ => (1.0 : Float)
+  let rows ← mkTRows av (av.map fun _ => true) (q1.map fun _ => (0.0 : Float)) q1 q0 ones ones
+  match truncate b rows with
+  | none => pure "err noindex"
+  | some w =>
+    pure (s!"ok q1={showList (fun r => showFloat r.q1) w} q0={showList (fun r => showFloat r.q0) w} " ++
+      s!"qa={showList (fun r => showFloat (qa r)) w}")
+
+def opsC03 : OpTable :=
+  [("tmle", opTmle), ("tmlecf", opTmleCf), ("unit", opUnit), ("unitq", opUnitQ), ("qinit", opQInit)]
 
 end ZVD
